@@ -35,6 +35,72 @@ func (l vLister) ListCompleted(ctx context.Context) ([]discovery.SegmentRef, err
 	return refs, nil
 }
 
+// vRealLister drives the REAL s3Lister (discovery.go) over an in-process S3 endpoint: the bucket
+// holds one completed .kfs/.index pair per scripted segment (plus two decoys per partition that are
+// not completed segments), the cycle's S3 fault oracle is armed for exactly this ListCompleted call.
+type vRealLister struct {
+	h     *vHarness
+	s3    *discovery.VerifC33S3
+	inner discovery.Lister
+	put   map[int]bool
+}
+
+func (l *vRealLister) sync() {
+	segs := l.h.listing()
+	for i := range segs {
+		if l.put[i] {
+			continue
+		}
+		l.put[i] = true
+		stem := vSegObjectKey(segs, i)
+		l.h.setKey(stem+".kfs", i)
+		l.s3.Put(stem+".kfs", []byte("records"+discovery.VerifC33FooterMagic))
+		l.s3.Put(stem+".index", []byte("idx"))
+		if !l.put[-1-segs[i].tp] {
+			// decoys at the far end of the partition: a .kfs still without the footer magic, a .kfs
+			// without its .index, an .index without its .kfs — none is a completed segment
+			l.put[-1-segs[i].tp] = true
+			topic, part := vTopic(segs[i].tp)
+			l.s3.Put(fmt.Sprintf("%s/%d/segment-%020d.kfs", topic, part, 900000), []byte("records still being writ"))
+			l.s3.Put(fmt.Sprintf("%s/%d/segment-%020d.index", topic, part, 900000), []byte("idx"))
+			l.s3.Put(fmt.Sprintf("%s/%d/segment-%020d.kfs", topic, part, 900100), []byte("records"+discovery.VerifC33FooterMagic))
+			l.s3.Put(fmt.Sprintf("%s/%d/segment-%020d.index", topic, part, 900200), []byte("idx"))
+		}
+	}
+}
+
+func (l *vRealLister) ListCompleted(ctx context.Context) ([]discovery.SegmentRef, error) {
+	fail := l.h.onList()
+	l.sync() // the bucket (and manifest.json) follow the timeline also on a tick whose listing is scripted to fail
+	if fail {
+		return nil, errVerifInjected
+	}
+	segs := l.h.listing()
+	var arm []string
+	for _, x := range l.h.s3Oracle() {
+		switch {
+		case x == "L":
+			arm = append(arm, "L")
+		case strings.HasPrefix(x, "p"):
+			if i, err := strconv.Atoi(x[1:]); err == nil && i >= 0 && i < len(segs) {
+				arm = append(arm, "p:"+vSegObjectKey(segs, i)+".kfs")
+			}
+		}
+	}
+	l.s3.Arm(arm)
+	refs, err := l.inner.ListCompleted(ctx)
+	l.s3.Arm(nil)
+	if err != nil {
+		return nil, err
+	}
+	keys := make([]string, 0, len(refs))
+	for _, r := range refs {
+		keys = append(keys, r.SegmentKey)
+	}
+	l.h.setListed(keys)
+	return refs, nil
+}
+
 type vDecoder struct{ h *vHarness }
 
 // Every record value is an LFS envelope pointing at blob "o/<offset>", so that the LFS
@@ -159,9 +225,16 @@ func vRunCase(c *vCase, settle func()) []string {
 			mappings[t] = config.Mapping{Topic: t, Lfs: lfsCfg}
 		}
 	}
+	var lister discovery.Lister = vLister{h}
+	if c.lister == "s3" {
+		s3 := discovery.VerifC33NewS3()
+		lister = &vRealLister{h: h, s3: s3, inner: s3.VerifC33Lister(""), put: map[int]bool{}}
+	} else if c.lister != "" {
+		return []string{"panic"}
+	}
 	p := &Processor{
 		cfg:            config.Config{Processor: config.ProcessorConfig{PollIntervalSeconds: 5}},
-		discover:       vLister{h},
+		discover:       lister,
 		decode:         vDecoder{h},
 		store:          vStore{h: h, inner: real},
 		sink:           vSink{h},
